@@ -71,6 +71,13 @@ def generate(rng, cfg, guards):
         ops.append(['append', i])
     from sim import linkfuncs as LF
     linkkinds = [(k, v) for k, v in c02.LINKKINDS if not (k == 'join' and typ == 'Data' and ver < 4)]
+    if typ == 'DataCollection' and rng.chance(0.5):
+        # old collection formats store the flattened links and sort them into internal / external ones when loading: make sure
+        # there are two datasets and a two-input link, half of the time with one input in the output's own dataset
+        if len([o for o in ops if o[0] == 'append']) < 2:
+            ops.append(['new', rng.randrange(len(W.SHAPES)), rng.randrange(1, 3), rng.randrange(10000), False, 0, False, False])
+            ops.append(['append', len([o for o in ops if o[0] == 'new']) - 1])
+        ops.append(['add_link', 'multi', 0, r8(), 1, r8(), rng.pick(sorted(LF.ONE)), r8(), rng.pick(sorted(LF.TWO)), rng.chance(0.5)])
     while len(ops) < n:
         k = rng.wpick(pairs)
         if k == 'new':
